@@ -1274,8 +1274,9 @@ theorem nominal_lt {f : Font} (hf : FontOK f) {c g : Nat} (h : nominal f c = som
     · cases h
     · rename_i i _ s hs
       have hmem : s ∈ f.subs := List.mem_of_getElem? hs
+      unfold nominalIn at h
       dsimp only at h
-      generalize (if (s.platform == 1 && decide (c > 0x7F)) = true then toMacRoman c else c) = c' at h
+      generalize (if (s.platform == 1 && decide (c > RbModel.Gen.Cmap.macAsciiMax)) = true then toMacRoman c else c) = c' at h
       cases hm : s.map c' with
       | some g' =>
         rw [hm] at h
@@ -1366,6 +1367,13 @@ theorem bestSub_eq (subs : List CmapSub) :
   unfold bestSub cmapPreference
   simp only [List.findSome?]
   repeat (first | rfl | (cases findSub subs _ _ <;> simp only [Option.orElse]))
+
+/-- `nominal` once the chosen subtable is known -/
+theorem nominal_of_best (f : Font) (i : Nat) (s : CmapSub) (hbest : bestSub f.subs = some i) (hs : f.subs[i]? = some s)
+    (c : Nat) : nominal f c = nominalIn s c := by
+  unfold nominal
+  rw [hbest]
+  simp only [hs]
 
 theorem findSub_some (subs : List CmapSub) (p e i : Nat) (h : findSub subs p e = some i) :
     (∃ s, subs[i]? = some s ∧ s.platform = p ∧ s.encoding = e) ∧
